@@ -7,9 +7,11 @@ import (
 	"verifharness/core"
 
 	"github.com/cinar/indicator/v2/helper"
+	"github.com/cinar/indicator/v2/momentum"
 	"github.com/cinar/indicator/v2/trend"
 	"github.com/cinar/indicator/v2/verifmc/mc"
 	"github.com/cinar/indicator/v2/volatility"
+	"github.com/cinar/indicator/v2/volume"
 )
 
 // Element types other than float64. Every indicator is generic over helper.Number; the catalogue (documented
@@ -297,4 +299,82 @@ func c15TypedUnit(c *core.Ctx, maxLen int) {
 	typedExtremes(c, "int32", []int32{1 << 24, 1<<24 + 1, math.MaxInt32 - 1, math.MaxInt32}, maxLen)
 	typedExtremes(c, "int8", []int8{math.MinInt8, -1, 0, math.MaxInt8}, maxLen)
 	typedExtremes(c, "float32", []float32{1, math.Nextafter32(1, 2), 16777216, 3.4e38}, maxLen)
+}
+
+// typedBounded: the bounded oscillators instantiated with float32 at an index-like price level with bars a few dozen
+// ulps wide, and with float64 at prices near 2^52: quiet bars relative to the precision of the price, closes on the high,
+// on the low and in between. The bounds are properties of the exact formulas AND of their documented evaluation order
+// (differences of nearby same-sign values are exact), so they hold to within a few ulps of the result's own scale.
+type tbar[T helper.Number] struct{ h, l, c, v T }
+
+func typedBounded[T helper.Number](c *core.Ctx, tname string, bars []tbar[T], maxLen int, eps float64) {
+	var n int64
+	for l := 1; l <= maxLen; l++ {
+		for _, w := range words(len(bars), l) {
+			hs, ls, cs, vs := make([]T, l), make([]T, l), make([]T, l), make([]T, l)
+			for i, s := range w {
+				hs[i], ls[i], cs[i], vs[i] = bars[s].h, bars[s].l, bars[s].c, bars[s].v
+			}
+			for p := 1; p <= 2 && p <= l; p++ {
+				var mfm, cmf, wr, sk, sd *Sink[T]
+				res := mc.Run(func() {
+					mfm = Collect(volume.NewMfm[T]().Compute(Feed(hs, 0), Feed(ls, 0), Feed(cs, 0)))
+					cmf = Collect(volume.NewCmfWithPeriod[T](p).Compute(Feed(hs, 0), Feed(ls, 0), Feed(cs, 0), Feed(vs, 0)))
+					w2 := momentum.NewWilliamsR[T]()
+					w2.Max.Period, w2.Min.Period = p, p
+					wr = Collect(w2.Compute(Feed(hs, 0), Feed(ls, 0), Feed(cs, 0)))
+					so := momentum.NewStochasticOscillator[T]()
+					so.Max.Period, so.Min.Period, so.Sma.Period = p, p, p
+					k, d := so.Compute(Feed(hs, 0), Feed(ls, 0), Feed(cs, 0))
+					sk, sd = Collect(k), Collect(d)
+				}, mc.Options{})
+				n++
+				c.Executions++
+				c.Transitions += int64(res.Events)
+				if len(res.Panics) > 0 || res.Deadlock {
+					continue // termination is C03's business
+				}
+				info := map[string]any{"element_type": tname, "highs": fmt.Sprint(hs), "lows": fmt.Sprint(ls), "closings": fmt.Sprint(cs), "period": p}
+				chk := func(name string, s *Sink[T], lo, hi float64) bool {
+					for i, x := range s.Vals {
+						v := float64(x)
+						if math.IsNaN(v) {
+							continue
+						}
+						if v < lo-eps*math.Max(1, math.Abs(lo)) || v > hi+eps*math.Max(1, math.Abs(hi)) {
+							c.Fail("", fmt.Sprintf("%s[%s] period %d on highs %v lows %v closings %v: value %d is %v, outside [%v, %v]", name, tname, p, hs, ls, cs, i, x, lo, hi), info)
+							return false
+						}
+					}
+					return true
+				}
+				_ = chk("volume.Mfm", mfm, -1, 1) && chk("volume.Cmf", cmf, -1, 1) && chk("momentum.WilliamsR", wr, -100, 0) &&
+					chk("momentum.StochasticOscillator %K", sk, 0, 100) && chk("momentum.StochasticOscillator %D", sd, 0, 100)
+			}
+		}
+	}
+	c.States += n
+	c.Evaluations += n
+	c.Nontrivial += n
+}
+
+func c15TypedBoundedUnit(c *core.Ctx, maxLen int) {
+	u32 := func(x float32, k int) float32 { // k ulps above x
+		for i := 0; i < k; i++ {
+			x = math.Nextafter32(x, float32(math.Inf(1)))
+		}
+		return x
+	}
+	l1, l2 := float32(5000), float32(5000.5)
+	typedBounded(c, "float32", []tbar[float32]{
+		{u32(l1, 21), l1, u32(l1, 21), 10}, {u32(l1, 21), l1, l1, 10}, {u32(l1, 21), l1, u32(l1, 10), 5},
+		{u32(l2, 7), l2, u32(l2, 7), 10}, {u32(l2, 7), l2, l2, 20},
+	}, maxLen, 1e-5)
+	b := float64(1 << 52)
+	typedBounded(c, "float64", []tbar[float64]{
+		{b + 1, b, b + 1, 10}, {b + 1, b, b, 10}, {b + 6, b + 3, b + 4, 5}, {b + 6, b + 3, b + 6, 10}, {b + 6, b + 3, b + 3, 20},
+	}, maxLen, 1e-9)
+	typedBounded(c, "float64", []tbar[float64]{
+		{6, 3, 6, 10}, {6, 3, 3, 10}, {6.002, 3, 5.004, 10}, {8, 5, 8, 20}, {7, 2, 2, 5},
+	}, maxLen, 1e-9)
 }
